@@ -488,7 +488,7 @@ pub fn run(ctx: &Ctx) -> i32 {
         v.sort_by(|a, b| b.0.partial_cmp(&a.0).unwrap());
         v.iter().take(5).map(|(r, k, n, x)| json!({"k": k, "h": 0, "trials": n, "failures": x, "rate": r})).collect()
     };
-    let wall = t0.elapsed().as_secs_f64();
+    let wall = t0.elapsed().as_secs_f64() / crate::clock::rate() as f64; // real seconds, also under a fast clock
     report::write_evidence(
         ctx,
         &Evidence {
